@@ -170,7 +170,17 @@ SBound == { Qn("forall", "j", Fld(Idx(Own("ms"), Idx(Own("fx"), NumA("3"))), "de
             Qn("exists", "j", Fld(VarR("@A"), "ms"), Bn("=", Fld(Fld(VarR("@j"), "deep"), "z"), Own("n"))),
             Qn("forall", "j", Own("ms"), Qn("exists", "i", Own("xs"), Bn("<", VarR("@i"), Fld(VarR("@j"), "n")))),
             Qn("forall", "j", Own("ms"), Bn(">", Idx(Own("xs"), Fld(VarR("@j"), "n")), Fld(VarR("@j"), "t"))) }
-SchemaShapes ==
+SDisjAlias ==
+  {Prop(Scope("globally", NoPred, NoPred), Pat2(t, d, Ev("u", "", Pr(c)))) :
+      t \in {"causes", "forbids"},
+      d \in {Dj(<<Ev("w", "", Pr(Bn(">", Own("q"), NumA("0")))), Ev("t", "A", NoPred)>>),
+             Dj(<<Ev("w", "", NoPred), Ev("u", "", NoPred), Ev("t", "A", Pr(Bn(">", Own("n"), NumA("0"))))>>),
+             Dj(<<Ev("t", "A", NoPred), Ev("w", "", NoPred)>>),
+             Dj(<<Ev("w", "W", NoPred), Ev("t", "A", NoPred)>>)},
+      c \in {Bn(">", Own("n"), Fld(VarR("@A"), "n")), Bn("=", Own("s"), Fld(VarR("@A"), "s")), Bn(">", Own("n"), Fld(VarR("@A"), "q")),
+             Bn(">", Idx(Fld(VarR("@A"), "fx"), NumA("2")), NumA("0"))}}
+  \cup {Prop(Scope("after", Dj(<<Ev("w", "", NoPred), Ev("t", "A", NoPred)>>), NoPred), Pat1("no", Ev("u", "", Pr(Bn(">", Own("n"), Fld(VarR("@A"), "n"))))))}
+SchemaShapes == SDisjAlias \cup
   {Prop(Scope("after", Ev("t", "A", NoPred), NoPred), Pat1("no", Ev("u", "", Pr(c)))) : c \in SBound} \cup
   {Prop(Scope("after", Ev("t", "A", NoPred), NoPred), Pat1("no", Ev("u", "", Pr(c)))) : c \in SPreds \cup SRepeat}
   \cup {Prop(Scope("globally", NoPred, NoPred), Pat2("causes", Ev("t", "A", Pr(Bn(">", Own("n"), NumA("0")))), Ev("w", "", Pr(c)))) : c \in UNION {SCtx(r) : r \in {Own("n"), Own("q"), Fld(VarR("@A"), "n"), Fld(VarR("@A"), "q")}}}
